@@ -25,9 +25,9 @@ type vfC20Case struct {
 	Msgs     []vfMsg `json:"msgs"`
 }
 
-var vfAlphabet = []string{"", "x", "y", "x ", "X"}
+var vfAlphabet = []string{"", "x", "y", "x ", "X", "100% full", "%d%s%v", "%"}
 
-const vfC20Rule = "generated: interval from {1ns..1h}, up to 40 (message, delta-t, Print|Printf) arrivals with delta-t drawn from {0, 1ns, I-1ns, I, I+1ns, uniform in [0,2I]} over a 5-symbol alphabet (incl. the empty message and near-duplicates); captured log output compared line by line with the model 'suppressed iff identical to the last printed message and less than I after that print'. Non-trivial: some message was suppressed and later printed again after the interval, and at least two different messages were printed. Distinct by hash of the case."
+const vfC20Rule = "generated: interval from {1ns..1h}, up to 40 (message, delta-t, Print|Printf) arrivals with delta-t drawn from {0, 1ns, I-1ns, I, I+1ns, uniform in [0,2I]} over an 8-symbol alphabet (incl. the empty message, near-duplicates and messages containing '%'); captured log output compared line by line with the model 'suppressed iff identical to the last printed message and less than I after that print'. Non-trivial: some message was suppressed and later printed again after the interval, and at least two different messages were printed. Distinct by hash of the case."
 
 func vfGenC20(t *rapid.T) vfC20Case {
 	iv := rapid.OneOf(
